@@ -68,28 +68,44 @@ def convert_program(oneliner_mod, src, seed_val):
     return res
 
 
-def default_samples(params):
-    """A few concrete valuations used for the concrete pre-screen / reachability witness."""
+def default_samples(params, pre="True", want=4):
+    """A few concrete valuations satisfying the bounds, used for the concrete pre-screen and as
+    reachability witnesses.  Deterministic (fixed seed)."""
+    rnd = random.Random(12345)
     out = []
-    for variant in range(4):
+    seen = set()
+    code = compile(pre or "True", "<pre>", "eval")
+    for attempt in range(400):
         d = {}
         for n, t in params:
             if t == "List[bool]":
-                d[n] = [[], [True] * 6, [True, False] * 3, [False, True, True, False, True, True]][variant]
+                k = attempt % 7
+                d[n] = [rnd.random() < 0.6 for _ in range(k)]
             elif t == "List[int]" and n == "NS":
-                d[n] = [[0, 0, 0], [1, 1, 1], [2, 2, 2], [2, 1, 0]][variant]
+                d[n] = [rnd.randint(0, 2) for _ in range(rnd.randint(0, 3))]
             elif t == "List[int]":
-                d[n] = [[11, 22, 33, 44, 55, 66, 77, 88], [5, -3, 0, 9, 2, 7, 1, 4], [1, 1, 1, 1, 1, 1, 1, 1], [-1, -2, -3, -4, -5, -6, -7, -8]][variant]
+                k = rnd.randint(0, 7)
+                d[n] = [rnd.randint(-9, 40) for _ in range(k)]
             elif t == "int":
-                base = {"a": [3, 0, -2, 7], "b": [5, 0, 4, 7]}.get(n, [2, 1, 0, -1])
-                d[n] = base[variant]
+                d[n] = rnd.choice([0, 1, 2, 3, -1, -2, 5, 7, -4, 4])
             elif t == "bool":
-                d[n] = [True, False, True, False][variant]
+                d[n] = rnd.random() < 0.5
             elif t == "str":
-                d[n] = ["ab", "", "a", "'\\"][variant]
+                d[n] = "".join(rnd.choice("ab'\\{x") for _ in range(rnd.randint(0, 3)))
             else:
                 raise ValueError("no default for type %s" % t)
+        try:
+            if not eval(code, {"__builtins__": __builtins__}, dict(d)):
+                continue
+        except Exception:
+            continue
+        key = repr(sorted(d.items()))
+        if key in seen:
+            continue
+        seen.add(key)
         out.append(d)
+        if len(out) >= want:
+            break
     return out
 
 
@@ -275,6 +291,8 @@ class Driver:
             "detail": detail,
             "what": "%s [%s] %s inputs=%r" % (t.desc, ",".join(unmatched), cls, inputs),
         }
+        if detail and "out" in detail:
+            rec["out_recorded"] = detail["out"]
         self.report.violation(rec)
 
     def prescreen(self, obligations, templates):
@@ -284,7 +302,7 @@ class Driver:
         for od in obligations:
             t = templates[od["tidx"]]
             ob = rt.Obligation(od)
-            samples = t.samples or default_samples(t.params)
+            samples = t.samples or default_samples(t.params, t.pre)
             reached = False
             div = None
             for inp in samples:
@@ -299,7 +317,12 @@ class Driver:
             od["witness"] = reached
             if div is not None:
                 self.stats["prescreen_divergences"] += 1
-                self._confirm_and_report(t, od, div[0])
+                cls = classify(div[1], div[2])
+                if cls and all(self.known.match(t.desc, c, self.host, cls, count=False) for c in od["cfgs"]):
+                    # concrete in-process divergence listed as a known finding: masked
+                    self._diverged(t, od["cfgs"], cls, None, div[0])
+                else:
+                    self._confirm_and_report(t, od, div[0])
                 continue
             keep.append(od)
         return keep
@@ -317,6 +340,7 @@ class Driver:
             "inputs": inputs,
             "observe": od["observe"],
             "budget": od["budget"],
+            "use_recorded_out": True,
         }
         with open(rec_path, "w") as f:
             json.dump(rec, f)
@@ -346,7 +370,8 @@ class Driver:
             names = [n for n, _ in od["params"]]
             body = "    return rt.coexec(OB[%d], {%s})" % (idx, ", ".join("%r: %s" % (n, n) for n in names))
             conds.append(chrun.Condition(od["oid"], od["params"], od["pre"], body))
-        batch = max(3, min(self.batch, -(-len(conds) // (self.jobs * 3))))
+        batch = max(3, min(self.batch, -(-len(conds) // (self.jobs * 8))))
+        random.Random(7).shuffle(conds)
         results, counts, st = chrun.check_conditions(
             conds, prelude, self.workdir, per_cond_timeout=self.per_cond_timeout, batch=batch, jobs=self.jobs, label=label
         )
@@ -387,6 +412,47 @@ class Driver:
                 self.inconclusive_ids.append(oid)
 
     def run(self, templates, on_rejected="violation", label="sce"):
+        t0 = time.time()
         obligations = self.prepare(templates, on_rejected)
+        t1 = time.time()
         obligations = self.prescreen(obligations, templates)
+        t2 = time.time()
         self.solve(obligations, templates, label)
+        t3 = time.time()
+        self.stats["phase_convert_s"] = round(self.stats.get("phase_convert_s", 0) + t1 - t0, 1)
+        self.stats["phase_prescreen_s"] = round(self.stats.get("phase_prescreen_s", 0) + t2 - t1, 1)
+        self.stats["phase_solve_s"] = round(self.stats.get("phase_solve_s", 0) + t3 - t2, 1)
+
+
+def report_known(driver, rep, known):
+    """For every open known finding of this property re-run its minimal input concretely and print
+    the KNOWN-FINDING line while it still fails (exit code stays 0)."""
+    for e in known.entries:
+        mi = e.get("minimal_input")
+        still = None
+        if mi is not None:
+            still = minimal_still_fails(driver.ol, e)
+        if still is False:
+            rep.note("known finding %s: minimal input no longer fails on this tree" % e["id"])
+        else:
+            rep.known("%s: %s" % (e["id"], e["what"]))
+
+
+def minimal_still_fails(ol, e):
+    src = e["minimal_input"]
+    cfgs = e.get("minimal_configs") or ["ast.unparse/chain_call/if_expr"]
+    inputs_list = e.get("minimal_values") or [{}]
+    for cfg in cfgs:
+        u, w, i = cfg.split("/")
+        random.seed(0)
+        try:
+            text = ol.convert_code_string(src, configs=make_cfg(ol, u, w, i))
+            compile(text, "<converted>", "eval")
+        except Exception:
+            return True
+        ob = rt.Obligation({"oid": "kf", "src": src, "out": text, "observe": e.get("observe", "trace+globals"), "budget": 200})
+        for inp in inputs_list:
+            ok, a, b = concrete_check(ob, dict(inp))
+            if ok is False:
+                return True
+    return False
